@@ -170,6 +170,8 @@ def mon_C03(hist, ctxs, kf):
     inc = defaultdict(int)       # (app,name) -> incarnation counter
     ids = {}                     # (app,name,inc) -> mailbox id
     owner = {}                   # mailbox id -> (app,name,inc)
+    held = defaultdict(set)      # (app,name) -> sides holding a claim, from the command stream
+    unknown_alloc = set()        # (app, side) whose allocate was cut short by a crash: it may hold a name we do not know
     nontrivial = 0
     for x in ctxs:
         if x.kind == "cmd" and x.mtype == "claim" and x.c in x.bound_pre:
@@ -191,13 +193,40 @@ def mon_C03(hist, ctxs, kf):
                     row = [r for r in x.post["chan"]["np"] if r[1] == a and r[2] == n]
                     if len(row) != 1 or row[0][3] != mid:
                         v.append((x.i, "claimed %s is not the nameplate row's mailbox: %s" % (mid, row)))
+        # ---- a ledger of claimants kept from the command stream (not from the rows, which a broken server may
+        # fail to maintain): a side holds (a, n) from its `claimed` / `allocated` / refused-as-crowded claim (the
+        # server honours its release) until its own `released`; a command cut short by a crash may or may not
+        # have recorded the claim -- it counts as holding (conservative).  When the LAST holder is answered
+        # `released`, that incarnation of the name is retired: whoever claims the name next is a new incarnation
+        # and must be told a mailbox id never handed out before.
+        if x.kind == "cmd" and x.c in x.bound_pre and x.mtype in ("claim", "allocate", "release"):
+            a, side = x.bound_pre[x.c]
+            if x.mtype == "claim" and isinstance(x.msg.get("nameplate"), str):
+                n = H(x.msg["nameplate"])
+                if x.crash or x.error == "crowded" or any(f[3] == "claimed" for f in x.frames_c):
+                    held[(a, n)].add(side)
+            elif x.mtype == "allocate":
+                got = [f[4] for f in x.frames_c if f[3] == "allocated" and isinstance(f[4], str)]
+                for n in got:
+                    held[(a, n)].add(side)
+                if x.crash and not got:
+                    unknown_alloc.add((a, side))
+            elif x.mtype == "release" and not x.crash and any(f[3] == "released" for f in x.frames_c):
+                n = x.msg.get("nameplate")
+                if isinstance(n, str):
+                    n = H(n)
+                else:
+                    row = [r for r in x.pre["conns"] if r[0] == x.c]
+                    n = row[0][6] if row and isinstance(row[0][6], str) else None
+                if n is not None and side in held.get((a, n), ()) and (a, side) not in unknown_alloc:
+                    held[(a, n)].discard(side)
+                    if not held[(a, n)]:
+                        inc[(a, n)] += 1          # retired by its last release
         live = set((r[1], r[2]) for r in x.post["chan"]["np"])
         seen = set((r[1], r[2]) for r in x.pre["chan"]["np"])
         for key in seen - live:
             inc[key] += 1
-        # a nameplate that was created and retired inside one event
-        if x.kind == "cmd" and x.mtype in ("claim", "allocate"):
-            pass
+            held.pop(key, None)
     return v, nontrivial
 
 
